@@ -15,7 +15,7 @@ import subprocess
 from . import common, regworld
 
 FACTORS = {"m": (2, 1), "cm": (1, 100), "Mcf": (1000, 1), "s": (60, 1)}
-REGISTRATIONS = ("AddUnit", "AddUnitBase", "AddCategory", "Clear")
+REGISTRATIONS = ("AddUnit", "AddUnitBase", "AddUnitBad", "AddCategory", "Clear")
 
 
 def legacy_file():
